@@ -79,7 +79,7 @@ func (d *atDriver) args(sc atScenario) []string {
 	switch sc.cmd {
 	case "save", "resave":
 		return []string{"save", "--keywords", "zqa,zqb", "--", "rsync -av --delete src/ dst/", "Mirror a directory: with 'quotes' and # hash"}
-	case "save-pipeline":
+	case "save-pipeline", "repipe":
 		return []string{"save-pipeline", "--", "errors", "grep ERROR app.log | sort | uniq -c"}
 	}
 	return []string{"search", "--database", d.mainF, "--", "list", "directory"}
@@ -100,6 +100,10 @@ func (d *atDriver) writeOld(sc atScenario) []byte {
 		var cmds []database.Command
 		for i := 0; i < sc.oldSize; i++ {
 			cmds = append(cmds, database.Command{Command: fmt.Sprintf("old-command-%d --flag", i), Description: fmt.Sprintf("Old entry number %d", i), Keywords: []string{"old", "entry"}})
+			if sc.cmd == "repipe" && i == sc.oldSize/2 { // a pipeline saved earlier under the name about to be used again, with another command line
+				cmds = append(cmds, database.Command{Command: "grep WARN app.log | sort | uniq", Description: "errors - 3-step pipeline",
+					Keywords: []string{"pipeline", "workflow", "search", "filter", "sort", "order"}, Pipeline: true})
+			}
 			if sc.cmd == "resave" && i == sc.oldSize/2 { // the command about to be saved is already there: the save replaces this entry
 				cmds = append(cmds, database.Command{Command: "rsync -av --delete src/ dst/", Description: "an earlier description", Keywords: []string{"earlier"}})
 			}
@@ -342,7 +346,7 @@ func atomicRun(args []string) int {
 	if err != nil {
 		fatal("strace not found")
 	}
-	scenarios := []atScenario{{"notebook", "save", -1}, {"notebook", "save", 0}, {"notebook", "save", 1}, {"notebook", "save", 25}, {"notebook", "save-pipeline", 3}, {"notebook", "resave", 1}, {"notebook", "resave", 6},
+	scenarios := []atScenario{{"notebook", "save", -1}, {"notebook", "save", 0}, {"notebook", "save", 1}, {"notebook", "save", 25}, {"notebook", "save-pipeline", 3}, {"notebook", "resave", 1}, {"notebook", "resave", 6}, {"notebook", "repipe", 2},
 		{"history", "search", -1}, {"history", "search", 1}, {"history", "search", 40}}
 	for _, sc := range scenarios {
 		d.tr++
